@@ -69,6 +69,9 @@ func EachCollection(ctx context.Context, c *arvados.Client, pageSize int, f func
 		IncludeTrash:       true,
 		IncludeOldVersions: true,
 	}
+	// The balancer places replicas according to each collection's
+	// desired storage classes, so they must be fetched too.
+	params.Select = append(params.Select, "storage_classes_desired")
 	var last arvados.Collection
 	var filterTime time.Time
 	callCount := 0
